@@ -442,6 +442,7 @@ func runC10(cx *lib.Ctx) {
 	}
 
 	windows(cx)
+	corrBuild(cx)
 }
 
 // runGenerated builds a body around the given expressions, renders it and runs the oracle.
